@@ -111,6 +111,15 @@ impl<'a> IExec<'a> {
             InBody::Deploy { id, meta, minter } => {
                 let idb: [u8; 32] = match id {
                     InId::Fresh(n) => keccak(&[b"remote-token".as_ref(), &[*n]].concat()),
+                    InId::CanonicalOf(tk) => {
+                        ctx.count("probe.remote_deploy_for_a_canonical_id");
+                        let t = *tk as usize % self.toks.len();
+                        its_token_id(&its_canonical_salt(&self.cfg.chain_name, &saddr(&self.tok_addr[t])))
+                    }
+                    InId::LocalOf { caller, salt } => {
+                        ctx.count("probe.remote_deploy_for_a_local_deployers_id");
+                        its_token_id(&its_deploy_salt(&self.cfg.chain_name, &saddr(&self.h[2 + *caller as usize % 4]), &super::i_ops::salt_bytes(*salt)))
+                    }
                     InId::Taken(k) => {
                         if self.m.reg_order.is_empty() {
                             keccak(&[b"remote-token".as_ref(), &[*k]].concat())
